@@ -5,7 +5,7 @@ from collections.abc import Callable
 from functools import cache
 from typing import Protocol
 
-from flowmark.linewrapping.atomic_patterns import ATOMIC_CONSTRUCT_PATTERN
+from flowmark.linewrapping.atomic_patterns import iter_atomic_constructs
 
 DEFAULT_LEN_FUNCTION = len
 """
@@ -46,18 +46,15 @@ def _extract_atomic_constructs(text: str) -> tuple[dict[int, str], str]:
     placeholder indices to original strings.
     """
     construct_map: dict[int, str] = {}
-    placeholder_idx = 0
-
-    def replace_construct(match: re.Match[str]) -> str:
-        nonlocal placeholder_idx
-        construct = match.group(0)
-        construct_map[placeholder_idx] = construct
-        placeholder = f"{_PLACEHOLDER_PREFIX}{placeholder_idx}{_PLACEHOLDER_SUFFIX}"
-        placeholder_idx += 1
-        return placeholder
-
-    text_with_placeholders = ATOMIC_CONSTRUCT_PATTERN.sub(replace_construct, text)
-    return construct_map, text_with_placeholders
+    pieces: list[str] = []
+    pos = 0
+    for placeholder_idx, match in enumerate(iter_atomic_constructs(text)):
+        construct_map[placeholder_idx] = match.group(0)
+        pieces.append(text[pos : match.start()])
+        pieces.append(f"{_PLACEHOLDER_PREFIX}{placeholder_idx}{_PLACEHOLDER_SUFFIX}")
+        pos = match.end()
+    pieces.append(text[pos:])
+    return construct_map, "".join(pieces)
 
 
 def _restore_atomic_constructs(tokens: list[str], construct_map: dict[int, str]) -> list[str]:
